@@ -15,6 +15,8 @@
 #include <boost/config/pragma_message.hpp>
 #include <boost/integer/integer_mask.hpp>
 
+#include <algorithm>
+#include <cstddef>
 #include <cstdint>
 #include <limits>
 #include <type_traits>
@@ -452,6 +454,25 @@ protected:
     }
 #endif
 
+    // Access only the leading num_bytes bytes of the bit field, i.e. the bytes a channel really occupies.
+    // A bit field placed near the end of a buffer may extend past it, even though the channel does not.
+    auto get_data(std::size_t num_bytes) const -> bitfield_t
+    {
+        bitfield_t ret = 0;
+        std::copy_n(gil_reinterpret_cast_c<const unsigned char*>(_data_ptr), num_bytes, gil_reinterpret_cast<unsigned char*>(&ret));
+        return ret;
+    }
+
+    void set_data(bitfield_t const& val, std::size_t num_bytes) const
+    {
+        std::copy_n(gil_reinterpret_cast_c<const unsigned char*>(&val), num_bytes, gil_reinterpret_cast<unsigned char*>(_data_ptr));
+    }
+
+    static auto occupied_bytes(unsigned first_bit) -> std::size_t
+    {
+        return (std::min)(sizeof(bitfield_t), static_cast<std::size_t>((first_bit + NumBits + 7) / 8));
+    }
+
 private:
     void set(integer_t value) const {     // can this be done faster??
         this->derived().set_unsafe(((value % num_values) + num_values) % num_values);
@@ -662,7 +683,7 @@ public:
     auto get() const -> integer_t
     {
         const BitField channel_mask = static_cast< integer_t >( parent_t::max_val ) <<_first_bit;
-        return static_cast< integer_t >(( this->get_data()&channel_mask ) >> _first_bit );
+        return static_cast< integer_t >(( this->get_data(parent_t::occupied_bytes(_first_bit))&channel_mask ) >> _first_bit );
     }
 };
 
@@ -708,12 +729,13 @@ public:
     auto get() const -> integer_t
     {
         BitField const channel_mask = static_cast< integer_t >( parent_t::max_val ) << _first_bit;
-        return static_cast< integer_t >(( this->get_data()&channel_mask ) >> _first_bit );
+        return static_cast< integer_t >(( this->get_data(parent_t::occupied_bytes(_first_bit))&channel_mask ) >> _first_bit );
     }
 
     void set_unsafe(integer_t value) const {
         const BitField channel_mask = static_cast< integer_t >( parent_t::max_val ) << _first_bit;
-        this->set_data((this->get_data() & ~channel_mask) | value<<_first_bit);
+        std::size_t const num_bytes = parent_t::occupied_bytes(_first_bit);
+        this->set_data((this->get_data(num_bytes) & ~channel_mask) | value<<_first_bit, num_bytes);
     }
 };
 } }  // namespace boost::gil
